@@ -69,12 +69,13 @@ static void fsOracleAt(Out &out, const QString &base)
 void runFs(const Scn &scn, Out &out)
 {
     QStringList *obs = &out.obs;
-    QByteArray root, stream;
+    QByteArray root, preroot, stream;
     bool mkroot = false;
     QStringList events;
     foreach (const QString &t, scn.toks) {
         QStringList p = t.split(':');
         if (p[0] == "root") root = unhx(p[1]);
+        else if (p[0] == "preroot") preroot = unhx(p[1]);
         else if (p[0] == "mkroot") mkroot = true;
         else { events << t; if (p[0] == "feed") stream.append(unhx(p[1])); }
     }
@@ -91,7 +92,8 @@ void runFs(const Scn &scn, Out &out)
         fsOracleAt(out, QDir::cleanPath(QString::fromUtf8(root)));
     }
 
-    QPointer<FilesystemHandler> handlerP = new FilesystemHandler(QString::fromUtf8(root));
+    // `preroot`: the handler object served another document root before (`setroot` switches to the scenario's root)
+    QPointer<FilesystemHandler> handlerP = new FilesystemHandler(QString::fromUtf8(preroot.isEmpty() ? root : preroot));
     FilesystemHandler &handler = *handlerP;
     QPointer<SimTcp> tcp = new SimTcp;
     tcp->log = obs;
@@ -140,6 +142,10 @@ void runFs(const Scn &scn, Out &out)
             eventTurn();
             if (ws) delete ws.data();
             eventTurn();
+            continue;
+        }
+        if (p[0] == "setroot") {
+            if (handlerP) handlerP->setDocumentRoot(QString::fromUtf8(root));
             continue;
         }
         if (p[0] == "killhandler") {
